@@ -51,7 +51,7 @@ def doCall (r0 : Run) (k : Nat) (addr : Nat) (form : String) (hold : Bool) : Run
       let s := step (step s (.stamp id)) (.fail id)
       { r with s := s, calls := r.calls ++ [{ k := k, addr := addr, form := form, done := true, err := "shutdown" }] }
     else
-      let carried := if form == "ping" || form == "stream" then none else some id
+      let carried := if form == "ping" || form == "stream" || form == "lstream" then none else some id
       if hold then
         let s := step s (.callBegin id)
         { r with s := s, calls := r.calls ++ [{ k := k, addr := addr, form := form, connId := carried, heldOn := some id }] }
@@ -89,7 +89,9 @@ def finishCall (r0 : Run) (k : Nat) : Run :=
   | some c =>
     match c.heldOn with
     | some id =>
-      let s := step (step r.s (.callEnd id)) (.stamp id)
+      -- a call returns through the Transport, which stamps the connection; a stream is closed by its
+      -- owner without the Transport seeing it (no stamp)
+      let s := if c.form == "lstream" then step r.s (.callEnd id) else step (step r.s (.callEnd id)) (.stamp id)
       { r with s := s, calls := r.calls.map fun c' => if c'.k == k then { c' with done := true, heldOn := none } else c' }
     | none => r
   | none => r
@@ -145,6 +147,7 @@ def action (r : Run) (toks : List String) : Option Run :=
     match k.toNat? with
     | some k =>
       if form == "long" then some (doCall r k (addrOf a) "call" true)
+      else if form == "lstream" then some (doCall r k (addrOf a) "lstream" true)
       else if form == "hookget" then some (hookGet r k (addrOf a))
       else if form == "callnb" then some (doCall r k (addrOf a) "call" false)
       else if form == "call" || form == "go" || form == "rt" || form == "ping" || form == "stream" then some (doCall r k (addrOf a) form false)
